@@ -65,6 +65,8 @@ def do_call(base, other, call):
     if kind == 'connect_inputs':
         return base.connect_inputs(other, **kw)
     if kind == 'extend_circuit':
+        if call.get('explicit'):
+            return base.extend_circuit(other, this_connectors=call['this'], other_connectors=call['other'], right_connect=call['right'], **kw)
         return base.extend_circuit(other, right_connect=call['right'], **kw)
     if kind == 'add_circuit':
         return base.add_circuit(other, **kw)
@@ -84,6 +86,8 @@ def effective_connectors(base, other, call):
     if k == "connect_inputs":
         return list(base.inputs), list(other.inputs), True
     if k == "extend_circuit":
+        if call.get("explicit"):
+            return list(call["this"]), list(call["other"]), call["right"]
         if call["right"]:
             return list(base.inputs), list(other.outputs), True
         return list(base.outputs), list(other.inputs), False
@@ -283,6 +287,17 @@ def gen_calls(rnd, base, other, n):
             call["other"] = rnd.sample(pool, len(base.inputs))
         elif kind == "extend_circuit":
             call["right"] = rnd.random() < 0.5
+            if rnd.random() < 0.5:
+                # explicit connector lists, including the empty ones (= side by side) and partial ones
+                call["explicit"] = True
+                if call["right"]:
+                    k2 = rnd.randint(0, min(len(base.inputs), len(other.gates)))
+                    call["this"] = rnd.sample(list(base.inputs), k2)
+                    call["other"] = rnd.sample(list(other.gates), k2)
+                else:
+                    k2 = rnd.randint(0, len(other.inputs)) if base.gates else 0
+                    call["other"] = rnd.sample(list(other.inputs), k2)
+                    call["this"] = [rnd.choice(list(base.gates)) for _ in range(k2)]
         calls.append(call)
     return calls
 
